@@ -18,6 +18,8 @@ if sid % 8 == 6:
     system, _ = systems.two_field_input_system(rng, name=f'h{sid}')
 elif sid % 4 == 2:
     system, _ = systems.field_input_system(rng, name=f'h{sid}')
+elif sid % 8 == 3:
+    system, _ = systems.branching_system(rng, name=f'h{sid}')
 elif sid % 2 == 1:
     system, _ = systems.random_loop_system(rng, size=2 + (sid // 2) % 2, name=f'h{sid}', extra=True)
 else:
@@ -30,7 +32,12 @@ if sid % 8 == 0 and len(system.components) >= 3:
     system.insert_components(comps[1:])
 np.random.seed(npseed)
 xs = system.sample_inputs(5)
-if sid % 8 == 4:      # candidate evaluations through a real thread pool: the result may not depend on how the futures happen to be ordered
+if sid % 8 == 3:
+    # sibling branches: training for the outputs of one branch only (the other branch's coupling domain is updated on the way or not,
+    # depending on whether it is evaluated before the early exit), then for the other branch with fixed bounds
+    system.fit(targets=['yb'], max_iter=niter + 2, num_refine=20, max_tol=-1.0)
+    system.fit(targets=['yf'], max_iter=3, num_refine=20, max_tol=-1.0, update_bounds=False)
+elif sid % 8 == 4:      # candidate evaluations through a real thread pool: the result may not depend on how the futures happen to be ordered
     from concurrent.futures import ThreadPoolExecutor
     with ThreadPoolExecutor(max_workers=3) as executor:
         system.fit(max_iter=niter, num_refine=20, max_tol=-1.0, executor=executor)
